@@ -1309,8 +1309,14 @@ static int read_event_it(struct context_data *ctx, struct xmp_event *e, int chn)
 				xc->rpv = 0;
 			}
 
-			if (to < 0)
+			if (to < 0) {
+				/* No voice available: the note is lost, but the
+				 * effects of the row (flow control, speed, tempo)
+				 * still apply, as the scan assumes. */
+				libxmp_process_fx(ctx, xc, chn, &ev, 0);
+				libxmp_process_fx(ctx, xc, chn, &ev, 1);
 				return -1;
+			}
 			if (to != chn) {
 				copy_channel(p, to, chn);
 				p->xc_data[to].flags = 0;
